@@ -1,5 +1,6 @@
 (* line protocol:  <pps> <chunk> <chunk> ...
    or:  H <cfg_limit: - | n> <cfg_trim: 0|1> <given: N | - | colon-separated T | L<n> | O>   ->  H <N | - | list>   (_handle_post_processors)
+   or:  C <pps> <text>   ->  C <file>      (_copy_header_using_line_pps on a resource file with that text)
    pps: '-' or colon-separated T | L<n>   ;  chunk: 'e' or dot-separated decimal code points
    output: W <file as dot-separated code points or e>   L <linewise spec of concat> *)
 open Model
@@ -38,6 +39,9 @@ let () =
         (match handle_pps cl (trim = "1") g with
          | None -> print_string "H N\n"
          | Some l -> print_string ("H " ^ show_kinds l ^ "\n"))
+      | ["C"; pps; text] ->
+        let (_, out) = copy_header pipe_step (py_lines (parse_chunk text)) (parse_pps pps) in
+        print_string ("C " ^ show out ^ "\n")
       | pps :: chunks ->
         let ps = parse_pps pps in
         let cs = List.map parse_chunk (List.filter (fun t -> t <> "") chunks) in
